@@ -54,7 +54,7 @@ def simple_match(rng):
 
 class GrammarGen:
     def __init__(self, rng, nrules=None, links=False, modifiers=True, comment_p=0.4, suppress=True,
-                 predicates=True, unordered=True, eolterm=True, abstract=True):
+                 predicates=True, unordered=True, eolterm=True, abstract=True, composite_comment=False):
         self.rng = rng
         self.n = nrules or rng.randint(1, 5)
         self.links = links
@@ -65,6 +65,7 @@ class GrammarGen:
         self.unordered = unordered
         self.eolterm = eolterm
         self.abstract = abstract
+        self.composite_comment = composite_comment
 
     def grammar(self):
         rng = self.rng
@@ -103,8 +104,36 @@ class GrammarGen:
             self.bodies[nm] = body
             rules.append({"name": nm, "params": params, "body": body})
         rules.reverse()
+        # nested rule modifiers: a rule with a modifier that references other rules -> give one of the referenced
+        # rules the opposite / a restating modifier (the whitespace context is dynamically scoped)
+        if self.modifiers:
+            byname = {r["name"]: r for r in rules}
+            for r in rules:
+                if r["params"] and rng.chance(0.5):
+                    refs = [n for n in self._refs(r["body"]) if n in byname and n != r["name"]]
+                    if refs:
+                        t = byname[rng.choice(refs)]
+                        if "skipws" in r["params"]:
+                            t["params"] = dict(t["params"], skipws=(not r["params"]["skipws"]) if rng.chance(0.8) else r["params"]["skipws"])
+                        elif "ws" in r["params"]:
+                            t["params"] = dict(t["params"], **rng.choice([{"skipws": True}, {"ws": " \\t\\n"}, {"ws": " "}]))
         comment = rng.choice(COMMENTS) if rng.chance(self.comment_p) else None
-        return {"rules": rules, "comment": comment}
+        g = {"rules": rules, "comment": comment}
+        if comment and self.composite_comment and rng.chance(0.35):
+            # composite Comment rule (a non-terminal comment model: line | block)
+            g["comment_alts"] = rng.sample(COMMENTS, 2)
+        return g
+
+    def _refs(self, e):
+        if e["k"] == "ref":
+            return [e["name"]]
+        out = []
+        for x in e.get("xs", []):
+            out += self._refs(x)
+        for key in ("x", "rhs"):
+            if key in e and isinstance(e[key], dict):
+                out += self._refs(e[key])
+        return out
 
     # ---- bodies ---------------------------------------------------------
     def match_names(self, later):
@@ -351,7 +380,10 @@ def render_grammar(g):
             ps.append("ws=" + q(p["ws"]).replace("\\\\", "\\"))
         head = r["name"] + ("[" + ", ".join(ps) + "]" if ps else "")
         out.append(f"{head}: {render_expr(r['body'], top=True)};")
-    if g.get("comment"):
+    if g.get("comment_alts"):
+        a, b = g["comment_alts"]
+        out.append(f"Comment: CommentA | CommentB;\nCommentA: /{a}/;\nCommentB: /{b}/;")
+    elif g.get("comment"):
         out.append(f"Comment: /{g['comment']}/;")
     return "\n".join(out) + "\n"
 
@@ -413,6 +445,13 @@ class Deriver:
         raise ValueError(k)
 
 
+def comment_pool(g):
+    """regex sources whose samples may be inserted as comments for grammar g"""
+    if g.get("comment_alts"):
+        return list(g["comment_alts"])
+    return [g["comment"]] if g.get("comment") else []
+
+
 def layout(tokens, rng, comment=None, style=None):
     """Join tokens with whitespace / comments; returns text."""
     style = style or rng.weighted([("space", 6), ("tight", 2), ("wild", 3)])
@@ -428,12 +467,14 @@ def layout(tokens, rng, comment=None, style=None):
             else:
                 out += rng.choice([" ", "  ", "\n", "\t", " \n ", ""])
                 if comment and rng.chance(0.2):
-                    out += rng.choice(COMMENT_SAMPLES[comment]) + rng.choice(["", " "])
+                    cs = comment if isinstance(comment, list) else [comment]
+                    out += rng.choice(COMMENT_SAMPLES[rng.choice(cs)]) + rng.choice(["", " "])
         out += t
     if style == "wild" and rng.chance(0.3):
         out += rng.choice([" ", "\n"])
         if comment and rng.chance(0.3):
-            out += rng.choice(COMMENT_SAMPLES[comment])
+            cs = comment if isinstance(comment, list) else [comment]
+            out += rng.choice(COMMENT_SAMPLES[rng.choice(cs)])
     return out
 
 
@@ -464,10 +505,10 @@ def sentences(g, rng, n_derived=3, n_mutated=2):
     out = []
     for _ in range(n_derived):
         toks = d.tokens()
-        out.append(layout(toks, rng, g.get("comment")))
+        out.append(layout(toks, rng, comment_pool(g) or None))
         if len(out) > n_derived - 1:
             break
     for _ in range(n_mutated):
         toks = mutate(d.tokens(), rng)
-        out.append(layout(toks, rng, g.get("comment")))
+        out.append(layout(toks, rng, comment_pool(g) or None))
     return out
